@@ -72,3 +72,12 @@ package ntor
 //@        == ntorKeySeed(cat(X25519(x, X25519BASE(y)), X25519(x, X25519BASE(b))), X25519BASE(b), X25519BASE(x), X25519BASE(y), id)
 //@   ensures [auth_agrees] ntorAuth(cat(X25519(y, X25519BASE(x)), X25519(b, X25519BASE(x))), X25519BASE(b), X25519BASE(x), X25519BASE(y), id)
 //@        == ntorAuth(cat(X25519(x, X25519BASE(y)), X25519(x, X25519BASE(b))), X25519BASE(b), X25519BASE(x), X25519BASE(y), id)
+
+// Elligator 2 decoding enters as an uninterpreted function of the representative (C07 states
+// what is proved about it).
+//@ spec fn ELL2(repr BSeq) BSeq
+//@ func (*Representative).ToPublic(repr) (pub)
+//@   serves C07 C02
+//@   nobody the body calls x25519ell2.RepresentativeToPublicKey, whose contract is the subject of C07
+//@   requires repr != nil
+//@   ensures pub != nil && fresh(pub) && seq(pub) == ELL2(seq(repr))
